@@ -1,7 +1,106 @@
-// Package c11 interprets the C11 op language against the real packages (stub).
+// Package c11 interprets the C11 op language against the real packages: flow.LoadRules with the
+// WarmUp / MemoryAdaptive token calculators + Reject behaviour, api.Entry under a virtual clock,
+// system_metric.SetSystemMemoryUsage as the injected memory reading.
 package c11
 
-import "verifharness/internal/vh"
+import (
+	"fmt"
 
-// New returns the interpreter for C11.
-func New() vh.Interp { return nil }
+	sentinel "github.com/alibaba/sentinel-golang/api"
+	"github.com/alibaba/sentinel-golang/core/base"
+	"github.com/alibaba/sentinel-golang/core/flow"
+	"github.com/alibaba/sentinel-golang/core/stat"
+	"github.com/alibaba/sentinel-golang/core/system_metric"
+	"verifharness/internal/vh"
+)
+
+const res = "c11-res"
+
+type Interp struct {
+	clk    *vh.Clock
+	loaded bool
+}
+
+func New() vh.Interp {
+	vh.Silence()
+	return &Interp{clk: vh.NewClock(1_900_000_000_000)}
+}
+
+func (it *Interp) Reset() {
+	if _, err := flow.LoadRules(nil); err != nil {
+		panic(err)
+	}
+	stat.ResetResourceNodeMap()
+	system_metric.SetSystemMemoryUsage(system_metric.NotRetrievedMemoryValue)
+	it.loaded = false
+}
+
+func (it *Interp) load(r *flow.Rule) string {
+	if it.loaded {
+		panic("second load in one case")
+	}
+	it.loaded = true
+	if _, err := flow.LoadRules([]*flow.Rule{r}); err != nil {
+		return "ok 0"
+	}
+	return fmt.Sprintf("ok %d", len(flow.GetRulesOfResource(res)))
+}
+
+func (it *Interp) Step(t []string, op string) string {
+	switch t[0] {
+	case "clock":
+		it.clk.SetMs(vh.U(t[1]))
+		return ""
+	case "load":
+		switch t[1] {
+		case "wu":
+			thr, ok := vh.ParseFBits(t[2])
+			if !ok {
+				panic("bad threshold " + t[2])
+			}
+			return it.load(&flow.Rule{
+				Resource:               res,
+				TokenCalculateStrategy: flow.WarmUp,
+				ControlBehavior:        flow.Reject,
+				Threshold:              thr,
+				WarmUpPeriodSec:        uint32(vh.U(t[3])),
+				WarmUpColdFactor:       uint32(vh.U(t[4])),
+				StatIntervalInMs:       uint32(vh.U(t[5])),
+			})
+		case "ma":
+			return it.load(&flow.Rule{
+				Resource:               res,
+				TokenCalculateStrategy: flow.MemoryAdaptive,
+				ControlBehavior:        flow.Reject,
+				LowMemUsageThreshold:   vh.I(t[2]),
+				HighMemUsageThreshold:  vh.I(t[3]),
+				MemLowWaterMarkBytes:   vh.I(t[4]),
+				MemHighWaterMarkBytes:  vh.I(t[5]),
+				StatIntervalInMs:       uint32(vh.U(t[6])),
+			})
+		}
+	case "mem":
+		system_metric.SetSystemMemoryUsage(vh.I(t[1]))
+		return ""
+	case "req":
+		n, b := int(vh.U(t[1])), uint32(vh.U(t[2]))
+		admitted := 0
+		for i := 0; i < n; i++ {
+			e, blk := sentinel.Entry(res, sentinel.WithBatchCount(b))
+			if blk == nil {
+				admitted++
+				e.Exit()
+			} else if blk.BlockType() != base.BlockTypeFlow {
+				panic("blocked by " + blk.BlockType().String())
+			}
+		}
+		return fmt.Sprint(admitted)
+	case "sum":
+		n := stat.GetResourceNode(res)
+		if n == nil {
+			return "-"
+		}
+		return fmt.Sprint(n.GetSum(base.MetricEventPass))
+	}
+	panic("bad op " + op)
+}
